@@ -22,10 +22,10 @@ Oracle (implementation only): the statement itself.  With values held beforehand
 generate_actions every calculated value that is left was held before and is not needed by the targets; the
 calc steps are exactly the elements the targets depend on (computed on a fresh replica); after
 execute_actions the targets hold the direct values, value-pasted, and every other calculated value that is
-left was held before the execution and is not needed by the targets.  A failure in a case whose model held,
-before generate_actions, a calculated value that the targets depend on is the known finding
-C16-precomputed-values (elements that have a value are not entered while tracing, so they are neither planned
-nor cleared).
+left was held before the execution and is not needed by the targets.  (Cases whose model held, before
+generate_actions, a calculated value that the targets depend on failed this oracle until 77e9cc3 - finding
+C16-precomputed-values, now a regression input: elements that have a value are not entered while tracing, and were
+neither planned nor cleared.)
 """
 import json
 import os
@@ -34,7 +34,6 @@ from .. import core
 from ..impl import mx, close_all, quiet, err_kind
 
 MOD = 1000003
-PRE_KEY = "C16-precomputed-values"
 
 
 # ----------------------------------------------------------------------------- programs
@@ -257,11 +256,11 @@ def run_case(case, out, stats, model_jobs):
             with quiet():
                 w.call(n)
         pre_held = set(w.calculated())
-        pre_dep = bool(pre_held & need)       # the known finding's input class
+        pre_dep = bool(pre_held & need)       # the input class of the repaired finding C16-precomputed-values
         w.log.clear()
 
         def fail(what, only_known_if=True, **kw):
-            out.fail(what, hist, key=PRE_KEY if (pre_dep and only_known_if) else None, **kw)
+            out.fail(what, hist, **kw)
 
         def order_of(nodes):
             """`nodes` (closed under `preds`) in an order in which direct evaluation would compute them"""
@@ -390,7 +389,8 @@ def run_case(case, out, stats, model_jobs):
             " ".join(str(ids(t)) for t in targets) or "-",
             " ".join(str(ids(n)) for n in order_of(pre_held)) or "-")
         model_jobs.append((hist, "gen", gen_line,
-                           "calculated=" + " ".join(str(ids(n)) for n in gen_execs) + " ; " +
+                           "calculated=" + " ".join(str(ids(n)) for n in gen_execs) + " ; extra=" +
+                           " ".join(str(i) for i in sorted(ids(n) for n in set(ordered) - set(gen_execs))) + " ; " +
                            " ".join(str(i) for i in sorted(ids(n) for n in now)) + "/" +
                            " ".join(str(i) for i in sorted(ids(n) for n, vi in now.items() if vi[1]))))
         # ---------------- coverage
